@@ -156,6 +156,7 @@ class Scheduler:
         self.done = _thread.allocate_lock()
         self.done.acquire()
         self.hook = None
+        self.on_block = None          # called as on_block(waiting tid, owner tid, lock name) when a lock is contended
         self._cand_cache = {}
 
     # ------------------------------------------------------------ threads
@@ -359,9 +360,13 @@ class SchedLock:
             # a try-acquire fails; so may a timed acquire: the holder can be arbitrarily slow, and the
             # scheduler explores exactly that case (virtual time - no wall-clock waiting)
             s.contention += 1
+            if s.on_block is not None:
+                s.on_block(tid, self.owner, self.name)
             return False
         while self.owner is not None and self.owner != tid:
             s.contention += 1
+            if s.on_block is not None:
+                s.on_block(tid, self.owner, self.name)
             s.state[tid] = 'blocked'
             s.waiting_for[tid] = self
             s.free_switch(tid)
